@@ -338,11 +338,15 @@ def build_expr(P, e):
 TY = {"normal": "Normal", "silent": "Silent", "atomic": "Atomic", "compound": "CompoundAtomic", "nonatomic": "NonAtomic"}
 
 
-def build_vm(P, rules):
-    m = MapObj("HashMap")
+def build_vm(P, rules, I=None):
+    """the Vm value for the given optimized rules; with an interpreter the real `Vm::new` is executed (so that whatever
+    fields the working tree's Vm has are initialised by its own constructor)"""
     RT = P.variants["RuleType"]
-    for name, ty, e in rules:
-        r = Agg([rstring(name.encode()), Enum("RuleType", TY[ty], RT.index(TY[ty])), build_expr(P, e)], "OptimizedRule")
+    rs = [Agg([rstring(name.encode()), Enum("RuleType", TY[ty], RT.index(TY[ty])), build_expr(P, e)], "OptimizedRule") for name, ty, e in rules]
+    if I is not None:
+        return I.call("", "Vm::new", [VecObj(rs)])
+    m = MapObj("HashMap")
+    for (name, ty, e), r in zip(rules, rs):
         m.d[name.encode()] = Agg([rstring(name.encode()), r], "tuple")
     return Agg([m, none()], "Vm")
 
